@@ -114,6 +114,30 @@ def send_roles(w):
                 batch.add(gname)
                 append.append((f, AppendStore(i, gp)))
                 break
+    # ... or as a copy loop through a running write pointer that starts at `buffer + fill`
+    if not append:
+        from .. import intervals
+        for f in P.repo_functions():
+            if f.name in flush_names:
+                continue
+            pc = intervals.pointer_cells(P, f)
+            for i in f.all_insts():
+                if i.op != "store":
+                    continue
+                q = f.resolve(i["ptr"])
+                if q is None or q.op != "load" or q["ptr"].get("k") != "inst" or q["ptr"]["id"] not in pc or pc[q["ptr"]["id"]][0][0] != "G":
+                    continue
+                gname = pc[q["ptr"]["id"]][0][1]
+                gd = P.globals.get(gname, {})
+                if not (gd.get("internal") and gname not in staging and not gd.get("const") and
+                        any(t2[0] == "gaddr" and t2[1] == gname for l in fl.all_insts() if l.op == "load" for t2 in flow.origins(fl, l["ptr"]))):
+                    continue
+                starts = [x for x in f.all_insts() if x.op == "store" and x["ptr"].get("k") == "inst" and x["ptr"]["id"] == q["ptr"]["id"] and
+                          f.resolve(x["val"]) is not None and f.resolve(x["val"]).op == "getelementptr" and f.resolve(x["val"])["base"].get("k") == "global"]
+                if len(starts) == 1:
+                    batch.add(gname)
+                    append.append((f, AppendStore(i, f.resolve(starts[0]["val"]))))
+                    break
     if not batch or not staging:
         raise AnalysisBroken("batch/staging buffers not identified")
     roles["batch"] = batch
@@ -403,7 +427,7 @@ def run(chk, w):
                         # announced value: must be on the edge excluding <= 64 (for `cap = (v <= 64) ? 64 : v` the test guards the phi's incoming block)
                         good = False
                         points = [i]
-                        vphi = f.resolve(rules.strip_casts(f, i["val"]))
+                        vphi = f.resolve(rules.strip_casts(f, rules.resolve_local(f, i["val"])))
                         if vphi is not None and vphi.op == "phi":
                             points = []
                             allc = True
@@ -436,6 +460,23 @@ def run(chk, w):
                                 if cv is not None and ((cnd["pred"] in ("sle", "ule") and not truth and cv >= 63) or (cnd["pred"] in ("sgt", "ugt") and truth and cv >= 63) or
                                                        (cnd["pred"] in ("slt", "ult") and not truth and cv >= 64) or (cnd["pred"] in ("sge", "uge") and truth and cv >= 64)):
                                     good = True
+                        # `cap = (v > 64) ? v : 64` compiled to a select, possibly kept in a local first
+                        vsel = f.resolve(rules.strip_casts(f, rules.resolve_local(f, i["val"])))
+                        if not good and vsel is not None and vsel.op == "select":
+                            cnd = f.resolve(vsel["cond"])
+                            if cnd is not None and cnd.op == "icmp":
+                                cv = rules.const_of(f, cnd["b"])
+                                arms_ok = True
+                                for arm, truth in ((vsel["a"], True), (vsel["b"], False)):
+                                    ca = rules.const_of(f, arm)
+                                    if ca is not None:
+                                        arms_ok = arms_ok and ca >= 64
+                                        continue
+                                    same = rules.expr_key(f, rules.strip_casts(f, arm)) == rules.expr_key(f, rules.strip_casts(f, cnd["a"]))
+                                    excl = cv is not None and ((cnd["pred"] in ("sle", "ule") and not truth and cv >= 63) or (cnd["pred"] in ("sgt", "ugt") and truth and cv >= 63) or
+                                                               (cnd["pred"] in ("slt", "ult") and not truth and cv >= 64) or (cnd["pred"] in ("sge", "uge") and truth and cv >= 64))
+                                    arms_ok = arms_ok and same and excl
+                                good = arms_ok
                         if good:
                             chk.ok("C01-CAP", 1, {"capacity_store": i.loc(), "value": "announced, > 64 on this path"})
                         else:
